@@ -33,7 +33,7 @@ def rule_seek(ctx):
               bad_detail='seek stores %s; it must store the position returned by the inner reader' % [(x[0], x[1]) for x in st])
     if st:
         ctx.check('seek', 'only-on-success', st[0][2] == ['seek(self.reader, a2) is Ok'], (s, st[0][3]), 'stored on the Ok edge')
-    rets = [canon(s.rvalue_expr(d[3])) for d in s.defs().get(0, []) if d[0] == 'assign']
+    rets = [canon(s.rvalue_expr(d[3])) for d in s.ret_defs() if d[0] == 'assign']
     okr = [x for x in rets if x.startswith('Result::Ok')]
     err = [x for x in rets if not x.startswith('Result::Ok')]
     ctx.check('seek', 'returns-new-position', okr in (['Result::Ok{0: self.absolute_pos}'], ['Result::Ok{0: seek(self.reader, a2)?}']) and
@@ -85,10 +85,10 @@ def rule_read(ctx):
         pb = pos_st[0][1]
         ctx.check('read', 'advance-after-use', r.loop_depth(pb) == 0 and pb in r.reach_from(xs[0][2]) and xs[0][2] not in r.reach_from(pb), (r, pb),
                   'the position is advanced after the XOR loop, never before a key index is computed')
-        okb = [d[1] for d in r.defs().get(0, []) if d[0] == 'assign' and canon(r.rvalue_expr(d[3])).startswith('Result::Ok')]
+        okb = [d[1] for d in r.ret_defs() if d[0] == 'assign' and canon(r.rvalue_expr(d[3])).startswith('Result::Ok')]
         allp = bool(okb) and all(ob not in r.reach_from(inner[0].target, avoid=[pb]) or ob == pb for ob in okb)
         ctx.check('read', 'advance-on-every-ok-path', allp, (r, pb), 'every Ok return passes the position update')
-    rets = [canon(r.rvalue_expr(d[3])) for d in r.defs().get(0, []) if d[0] == 'assign']
+    rets = [canon(r.rvalue_expr(d[3])) for d in r.ret_defs() if d[0] == 'assign']
     ctx.check('read', 'returns-n', rets == ['Result::Ok{0: %s}' % n], r, 'returns %s' % rets)
 
 
@@ -142,7 +142,7 @@ def rule_once(ctx):
     rk = prog.one('BlkFile::read_xor_key')
     ctx.touch(rk)
     rets = {}
-    for d in rk.defs().get(0, []):
+    for d in rk.ret_defs():
         if d[0] == 'assign':
             rets[canon(rk.rvalue_expr(d[3]))] = util.guards_at(rk, d[1])
     buf = 'from_elem(0, (len(metadata(a1)?) as usize))'
